@@ -15,6 +15,7 @@ func init() {
 		Explain: "Decides the event-handler contract as table and shape facts: the event names a filter accepts are exactly the names EventType.String() produces plus '*'; a script runs only behind its filter's Invoke(e) == true, and Invoke returns true only on '*' or on type-name equality, additionally behind name equality for user:NAME / query:NAME filters; the type switch of the invoker covers every implementation of serf.Event; SERF_EVENT, SERF_SELF_NAME and SERF_SELF_ROLE are always set, the user/query name and Lamport time variables in their arms, SERF_TAG_ names go through upper-casing and the [^A-Z0-9_] sanitiser; a member line has exactly four tab-separated fields ending in a newline with the free-text fields passed through the tab/newline escaper; a payload gets a newline appended exactly when it is non-empty and lacks one; a query response is sent only after a successful run with output, from the 8 KiB ring buffer. What the shell does is not covered.",
 		Run:     runC27,
 		Mutants: []Mutant{
+			{Name: "handler-list-reused-on-deregister", File: "cmd/serf/command/agent/agent.go", Func: "func (a *Agent) DeregisterEventHandler(", Old: "\ta.eventHandlerList = nil\n", New: "\ta.eventHandlerList = a.eventHandlerList[:0]\n", Expect: "R7"},
 			{Name: "inherited-env-overrides", File: "cmd/serf/command/agent/invoke.go", Func: "func invokeEventScript(", Old: "\tcmd.Env = append(os.Environ(),\n", New: "\tcmd.Env = append(os.Environ()[:0:0],\n", Expect: "R3|env:inherited-first"},
 			{Name: "filter-accepts-unknown-event", File: "cmd/serf/command/agent/event_handler.go", Func: "func (s *EventFilter) Valid(", Old: "\tcase \"member-reap\":\n", New: "\tcase \"member-reap\":\n\tcase \"member-remove\":\n", Expect: "R1"},
 			{Name: "user-name-filter-ignored", File: "cmd/serf/command/agent/event_handler.go", Func: "func (s *EventFilter) Invoke(", Old: "\t\tif userE.Name != s.Name {\n\t\t\treturn false\n\t\t}\n", New: "\t\t_ = userE\n", Expect: "R4"},
@@ -365,6 +366,10 @@ func runC27(c *an.Ctx) {
 		}
 		c.Add(n == 2, "R5", "respond:captures-output", inv, "the script's stdout and stderr are captured in the ring buffer", "field provenance")
 	}
+
+	// ---- R7 (shared with C25.R8) the event loop iterates a snapshot of the handler list outside the
+	// lock: a handler is invoked exactly once per event only if that snapshot is never rewritten in place
+	handlerListFresh(c, "R7")
 
 	// ---- R6 "configured" follows a reload: the pending list replaces the current one at the next event
 	c.Rule("R6 reload: UpdateScripts stores its argument as the pending list under the lock; HandleEvent installs a pending list whenever one is pending (condition: pending != nil, nothing else), under the same lock, before it iterates; every list handed to UpdateScripts is non-nil (an empty configuration removes all handlers)")
